@@ -76,7 +76,14 @@ pub fn run(toks: &[&str]) -> Option<String> {
     let nb = t.nat()?; let nd = t.nat()?;
     let k1 = t.nat()?; let mut to_doer = vec![]; for _ in 0..k1 { to_doer.push(t.tok()?.to_string()); }
     let k2 = t.nat()?; let mut to_boss = vec![]; for _ in 0..k2 { to_boss.push(t.tok()?.to_string()); }
-    if !t.done() { return None; }
+    // optional: `cd:<off,off,..>` / `cb:<off,..>` = byte offsets of the stream to the doer / to the boss at which the
+    // network pauses (TCP segment boundaries anywhere, also inside the 8-byte length header)
+    let mut cuts: [Vec<usize>; 2] = [vec![], vec![]];
+    while let Some(tok) = t.tok() {
+        let (which, list) = if let Some(l) = tok.strip_prefix("cd:") { (0, l) } else if let Some(l) = tok.strip_prefix("cb:") { (1, l) } else { return None };
+        for o in list.split(',').filter(|x| !x.is_empty()) { cuts[which].push(o.parse().ok()?); }
+        cuts[which].sort(); cuts[which].dedup();
+    }
 
     let (boss_end, mut net_b) = pair();
     let (doer_end, mut net_d) = pair();
@@ -100,8 +107,16 @@ pub fn run(toks: &[&str]) -> Option<String> {
 
     let wd = build(&to_doer, &fb, &fd)?;
     let wb = build(&to_boss, &fb, &fd)?;
-    let _ = net_d.write_all(&wd); let _ = net_d.flush(); let _ = net_d.shutdown(Shutdown::Write);
-    let _ = net_b.write_all(&wb); let _ = net_b.flush(); let _ = net_b.shutdown(Shutdown::Write);
+    fn deliver(s: &mut TcpStream, wire: &[u8], cuts: &[usize]) {
+        let mut pos = 0;
+        for &c in cuts.iter().filter(|&&c| c > 0 && c < wire.len()) {
+            let _ = s.write_all(&wire[pos..c]); let _ = s.flush(); pos = c;
+            std::thread::sleep(std::time::Duration::from_millis(4));
+        }
+        let _ = s.write_all(&wire[pos..]); let _ = s.flush(); let _ = s.shutdown(Shutdown::Write);
+    }
+    deliver(&mut net_d, &wd, &cuts[0]);
+    deliver(&mut net_b, &wb, &cuts[1]);
 
     let mut got_d = vec![];
     while let Ok(c) = doer.receiver.recv() {
